@@ -135,6 +135,7 @@ func nearestCase(c *Ctx, xo *Opnd, tag string) {
 	}
 	x := xo.Build()
 	key := func(op string) string { return fmt.Sprintf("%s x=%s@exp%d %s", op, xo, xo.Exp, tag) }
+	nontrivialCounted := false
 	for _, is32 := range []bool{false, true} {
 		var got float64
 		var acc decimal.Accuracy
@@ -193,7 +194,8 @@ func nearestCase(c *Ctx, xo *Opnd, tag string) {
 			} else {
 				wacc = int8(new(big.Rat).SetFloat64(want).Cmp(r))
 			}
-			if wacc != 0 {
+			if wacc != 0 && !nontrivialCounted {
+				nontrivialCounted = true
 				c.NonTrivial()
 			}
 			// independent check of 'nearest': no neighbouring float is closer
